@@ -6,6 +6,7 @@ import (
 	"fmt"
 	"strings"
 	"sync"
+	"time"
 
 	blsu "github.com/protolambda/bls12-381-util"
 
@@ -34,8 +35,10 @@ type c12Case struct {
 	Rel   string       `json:"relation,omitempty"`
 	Store c12StoreSpec `json:"store"`
 	Now   uint64       `json:"now_slot"`
-	U     *c12Upd      `json:"update,omitempty"` // verify
-	Seq   []c12Upd     `json:"sequence,omitempty"`
+	// LateMs: the wall clock stands this many milliseconds after the start of slot Now
+	LateMs int      `json:"ms_into_the_slot,omitempty"`
+	U      *c12Upd  `json:"update,omitempty"` // verify
+	Seq    []c12Upd `json:"sequence,omitempty"`
 }
 
 // ---------- the oracle: the statement's seven clauses, nothing else ----------
@@ -169,7 +172,12 @@ func c12Site(clause string, cs c12Case) string {
 func c12CheckVerify(r *mc.Report, cs c12Case, st beacon.LightClientStore, b *c12Built) (accepted bool) {
 	c := c12Client(st, cs.Now)
 	var err error
-	if msg, site := c12InBubble(func() { err = c12Verify(c, cs.U.Kind, b.obj) }); msg != "" {
+	if msg, site := c12InBubble(func() {
+		if cs.LateMs > 0 {
+			time.Sleep(time.Duration(cs.LateMs) * time.Millisecond) // virtual: the bubble's clock moves on within slot Now
+		}
+		err = c12Verify(c, cs.U.Kind, b.obj)
+	}); msg != "" {
 		r.EngineError(fmt.Sprintf("verification panicked in %s: %s (relation %s, corruption %q)", site, msg, cs.Rel, cs.U.Corrupt))
 		r.Trivial()
 		return false
@@ -202,26 +210,31 @@ func c12CheckVerify(r *mc.Report, cs c12Case, st beacon.LightClientStore, b *c12
 type c12Rel struct {
 	name               string
 	fin, att, sig, now uint64
+	lateMs             int // the wall clock is this many milliseconds into slot "now" (0: at its start)
 }
 
 const c12F0 = c12P*c12Period + 4096 // finalized slot of the store in part 1
 
 var c12Rels = []c12Rel{
-	{"base", c12F0 + 64, c12F0 + 160, c12F0 + 161, c12F0 + 300},
-	{"sig-eq-attested", c12F0 + 64, c12F0 + 160, c12F0 + 160, c12F0 + 300},
-	{"sig-before-attested", c12F0 + 64, c12F0 + 160, c12F0 + 159, c12F0 + 300},
-	{"sig-eq-now", c12F0 + 64, c12F0 + 160, c12F0 + 161, c12F0 + 161},
-	{"sig-one-slot-in-future", c12F0 + 64, c12F0 + 160, c12F0 + 161, c12F0 + 160},
-	{"sig-first-slot-of-next-period", c12Boundary - 65, c12Boundary - 1, c12Boundary, c12Boundary + 300},
-	{"all-in-next-period", c12Boundary + 10, c12Boundary + 50, c12Boundary + 51, c12Boundary + 300},
-	{"sig-two-periods-ahead", c12Boundary + c12Period - 65, c12Boundary + c12Period - 1, c12Boundary + c12Period, c12Boundary + 2*c12Period},
-	{"sig-period-before-store", c12P*c12Period - 100, c12P*c12Period - 10, c12P*c12Period - 9, c12F0 + 300},
-	{"finalized-after-attested", c12F0 + 161, c12F0 + 160, c12F0 + 162, c12F0 + 300},
-	{"finalized-eq-attested", c12F0 + 160, c12F0 + 160, c12F0 + 161, c12F0 + 300},
-	{"finalized-older-than-store-attested-newer", c12F0 - 64, c12F0 + 160, c12F0 + 161, c12F0 + 300},
-	{"attested-eq-store-finalized", c12F0 - 64, c12F0, c12F0 + 1, c12F0 + 300},
-	{"attested-older-same-period", c12F0 - 164, c12F0 - 100, c12F0 - 99, c12F0 + 300},
-	{"attested-prev-period-sig-in-store-period", c12P*c12Period - 65, c12P*c12Period - 1, c12P * c12Period, c12F0 + 300},
+	{"base", c12F0 + 64, c12F0 + 160, c12F0 + 161, c12F0 + 300, 0},
+	{"sig-eq-attested", c12F0 + 64, c12F0 + 160, c12F0 + 160, c12F0 + 300, 0},
+	{"sig-before-attested", c12F0 + 64, c12F0 + 160, c12F0 + 159, c12F0 + 300, 0},
+	{"sig-eq-now", c12F0 + 64, c12F0 + 160, c12F0 + 161, c12F0 + 161, 0},
+	{"sig-one-slot-in-future", c12F0 + 64, c12F0 + 160, c12F0 + 161, c12F0 + 160, 0},
+	// ... with the clock late in the current slot: 400 ms, 1 ms before the signature slot begins
+	{"sig-one-slot-in-future-400ms-before-it-starts", c12F0 + 64, c12F0 + 160, c12F0 + 161, c12F0 + 160, 11_600},
+	{"sig-one-slot-in-future-1ms-before-it-starts", c12F0 + 64, c12F0 + 160, c12F0 + 161, c12F0 + 160, 11_999},
+	{"sig-eq-now-500ms-into-the-slot", c12F0 + 64, c12F0 + 160, c12F0 + 161, c12F0 + 161, 500},
+	{"sig-first-slot-of-next-period", c12Boundary - 65, c12Boundary - 1, c12Boundary, c12Boundary + 300, 0},
+	{"all-in-next-period", c12Boundary + 10, c12Boundary + 50, c12Boundary + 51, c12Boundary + 300, 0},
+	{"sig-two-periods-ahead", c12Boundary + c12Period - 65, c12Boundary + c12Period - 1, c12Boundary + c12Period, c12Boundary + 2*c12Period, 0},
+	{"sig-period-before-store", c12P*c12Period - 100, c12P*c12Period - 10, c12P*c12Period - 9, c12F0 + 300, 0},
+	{"finalized-after-attested", c12F0 + 161, c12F0 + 160, c12F0 + 162, c12F0 + 300, 0},
+	{"finalized-eq-attested", c12F0 + 160, c12F0 + 160, c12F0 + 161, c12F0 + 300, 0},
+	{"finalized-older-than-store-attested-newer", c12F0 - 64, c12F0 + 160, c12F0 + 161, c12F0 + 300, 0},
+	{"attested-eq-store-finalized", c12F0 - 64, c12F0, c12F0 + 1, c12F0 + 300, 0},
+	{"attested-older-same-period", c12F0 - 164, c12F0 - 100, c12F0 - 99, c12F0 + 300, 0},
+	{"attested-prev-period-sig-in-store-period", c12P*c12Period - 65, c12P*c12Period - 1, c12P * c12Period, c12F0 + 300, 0},
 }
 
 func c12Corruptions(thorough bool) []string {
@@ -281,7 +294,7 @@ func c12VerifyCases(thorough bool) []c12Case {
 		case cor == "store-key:non-participant":
 			st.Cur, st.Next = fmt.Sprintf("A~%d", last), strings.Replace(next, "B", fmt.Sprintf("B~%d", last), 1)
 		}
-		out = append(out, c12Case{Part: "verify", Rel: rel.name, Store: st, Now: rel.now, U: &u})
+		out = append(out, c12Case{Part: "verify", Rel: rel.name, Store: st, Now: rel.now, LateMs: rel.lateMs, U: &u})
 	}
 	wires, ends := []string{"deneb"}, []bool{false}
 	if thorough {
